@@ -226,6 +226,9 @@ fn oracle(s: &ProgScene<X>, t: &Trace) -> Vec<Violation> {
     out
 }
 
+/// layout code: callers that give up (see make_case_s)
+const GIVE_UP: u8 = 50;
+
 thread_local! {
     /// handlers wait their duration in one-tick pieces (see `Work::split`)
     static SPLIT: std::cell::Cell<bool> = const { std::cell::Cell::new(false) };
@@ -252,7 +255,15 @@ fn make_case_s(timeout: Option<u32>, fail: bool, durs: &[u32], mailbox: Mailbox,
     }
     // layout 0: one client sends all but the last and calls the last; layout 1: one caller per message
     let mut clients = vec![];
-    if layout >= 2 {
+    if layout == GIVE_UP {
+        // one client per message; each gives its call up after the first poll (alternating
+        // Addr::call and Caller::call): the handler is none of the client's business any more,
+        // only the configured limit may abandon it
+        for (k, (id, _)) in durations.iter().enumerate() {
+            let h = if k % 2 == 0 { H::Addr(0) } else { H::Cal(0) };
+            clients.push(ClientSpec { init: vec![HInit::Addr, HInit::Cal], ops: vec![Op::CallAbandon(h, *id), Op::Sleep(1)] });
+        }
+    } else if layout >= 2 {
         // one client, sequential calls separated by an idle gap (the actor sits idle for
         // `layout` ticks between two messages)
         let mut ops = vec![];
@@ -273,7 +284,7 @@ fn make_case_s(timeout: Option<u32>, fail: bool, durs: &[u32], mailbox: Mailbox,
         }
     }
     // the owner waits for the end: join (fail config) or after a long sleep stop + join
-    let total: u32 = durs.iter().sum::<u32>() + 3 + if layout >= 2 { layout as u32 * durs.len() as u32 } else { 0 };
+    let total: u32 = durs.iter().sum::<u32>() + 3 + if layout >= 2 && layout != GIVE_UP { layout as u32 * durs.len() as u32 } else { 0 };
     clients.push(ClientSpec { init: vec![HInit::Own], ops: vec![Op::Sleep(total), Op::Consume(H::Own(0))] });
     if fail {
         clients.push(ClientSpec { init: vec![HInit::Addr], ops: vec![Op::Sleep(total), Op::Halt(H::Addr(0))] });
@@ -357,6 +368,23 @@ fn base_cases(tier: Tier) -> Vec<Case> {
                                 }
                             }
                         }
+                    }
+                }
+            }
+        }
+    }
+    // callers that give up: with or without a limit, a handler is never abandoned because its
+    // caller lost interest
+    for t in [None, Some(2u32)] {
+        for fail in [false, true] {
+            if t.is_none() && fail {
+                continue;
+            }
+            for &mb in &mbs {
+                for a in [0u32, 1, 3] {
+                    v.push(make_case(t, fail, &[a], mb, GIVE_UP));
+                    for b in [0u32, 1, 3] {
+                        v.push(make_case(t, fail, &[a, b], mb, GIVE_UP));
                     }
                 }
             }
